@@ -107,10 +107,15 @@ def specExpandToks (t : List (String × String)) : List Tok → List Char
 def specExpand (q : String) : String :=
   String.ofList (specExpandToks Gen.Macros.table (tokenize q.toList))
 
-/-- Queries in the spec's domain: ASCII, every string literal terminated. -/
+/-- Queries in the spec's domain: every string literal terminated, ASCII outside string literals
+    (what `\w` makes of other letters is the regexp engine's business; inside a literal every
+    character is just copied). -/
 def inDomain (q : String) : Bool :=
-  q.toList.all (fun c => c.toNat < 128) &&
-  (tokenize q.toList).all (fun t => match t with | .opened _ => false | _ => true)
+  (tokenize q.toList).all (fun t => match t with
+    | .opened _ => false
+    | .lit _ => true
+    | .word w => w.all (fun c => c.toNat < 128)
+    | .other c => c.toNat < 128)
 
 /-- A literal holds an escaped quote: the look-ahead of the implementation counts it as a
     quote (recorded finding). -/
